@@ -351,3 +351,72 @@ def r06_10_decoded_fields_are_used(ctx: Ctx) -> RuleResult:
             else:
                 rr.fail(c.qual, f"field `{fld}` is restored by the decoder and written by the encoder but no behaviour-bearing method reads it: that part of the zone data no longer influences what the zone does", ctx.loc(ctor))
     return rr
+
+
+# ------------------------------------------------------------------------------------------- R06.11 fixed-zone table lookup
+
+
+@rule("C06")
+def r06_11_fixed_zone_table(ctx: Ctx) -> RuleResult:
+    """DateTimeZone.for_offset answers from a table of half-hour zones UTC-12 .. UTC+15 and builds a fresh fixed zone for every
+    other offset.  The table may only be used for offsets that are ON the half-hour grid and INSIDE the table: the function is
+    followed with the offset's seconds set to boundary values (the expressions evaluated by the abstract interpreter on exact
+    integers); it must reach the table exactly for multiples of 1800 s in [-43200, 54000] - a negative index would wrap around
+    to the other end of the table (UTC-13 -> UTC+14:30), an off-grid offset would be truncated to its neighbour."""
+    from ..absint import Iv, State
+    from ..oblig import interp
+
+    rr = RuleResult("R06.11", "for_offset uses the fixed-zone table exactly for offsets on the half-hour grid inside UTC-12 .. UTC+15 (function followed at boundary values)", min_instances=10)
+    M = ctx.M
+    f = M.func("DateTimeZone.for_offset")
+    pname = f.value_params[0].arg
+
+    def follow(seconds: int) -> str:
+        env: dict[str, Iv] = {}
+        I = interp(ctx)
+
+        def ev(e: ast.expr):
+            return I.ev(e, State(dict(env)), f, 0)
+
+        def walk(stmts: list[ast.stmt]) -> str | None:
+            for s in stmts:
+                if isinstance(s, (ast.Assign, ast.AnnAssign)) and s.value is not None:
+                    t = s.targets[0] if isinstance(s, ast.Assign) else s.target
+                    if isinstance(t, ast.Name):
+                        if unparse(s.value) == f"{pname}.seconds":
+                            env[t.id] = Iv(seconds, seconds)
+                        else:
+                            v = ev(s.value)
+                            if isinstance(v, Iv) and v.lo == v.hi:
+                                env[t.id] = v
+                            else:
+                                env.pop(t.id, None)
+                    continue
+                if isinstance(s, ast.If):
+                    v = ev(s.test)
+                    if isinstance(v, Iv) and v.lo == v.hi:
+                        r = walk(s.body if v.lo else s.orelse)
+                        if r is not None:
+                            return r
+                        continue
+                    if any(isinstance(x, ast.Return) for b in (s.body, s.orelse) for y in b for x in ast.walk(y)):
+                        raise AnalysisError(f"{f.qual}: test `{unparse(s.test)[:60]}` not decided at {seconds} s")
+                    continue
+                if isinstance(s, ast.Return):
+                    return "table" if isinstance(s.value, ast.Subscript) else "fresh" if isinstance(s.value, ast.Call) else "other"
+                if isinstance(s, (ast.Expr, ast.Import, ast.ImportFrom, ast.Pass)):
+                    continue
+                raise AnalysisError(f"{f.qual}: statement {type(s).__name__} not followed")
+            return None
+
+        return walk(f.body) or "falls through"
+
+    for seconds in (-64800, -46800, -45000, -43201, -43200, -41400, -1800, -1, 0, 1, 1799, 1800, 20700, 52200, 54000, 54001, 55800, 64800):
+        rr.inst()
+        want = "table" if seconds % 1800 == 0 and -43200 <= seconds <= 54000 else "fresh"
+        got = follow(seconds)
+        if got == want:
+            rr.ok({"seconds": seconds, "answer from": got})
+        else:
+            rr.fail(f.qual, f"an offset of {seconds} s is answered from the {got} path; it must be the {want} one ({'on' if seconds % 1800 == 0 else 'off'} the half-hour grid, {'inside' if -43200 <= seconds <= 54000 else 'outside'} UTC-12 .. UTC+15)", ctx.loc(f))
+    return rr
